@@ -1,14 +1,225 @@
 package sym
 
-type raceState struct {
-	reports []string
+// Happens-before race monitor (C11).  Vector clocks per goroutine and per
+// synchronisation object; an access history per heap cell / map.  Two accesses
+// to one cell, at least one a write, unordered by happens-before on a feasible
+// path are a data race in the sense of the Go memory model.  Because the
+// scheduler only switches goroutines at synchronisation operations, a race-free
+// verdict within the bound covers all finer interleavings (DRF argument).
+
+import (
+	"fmt"
+)
+
+type vclock []int
+
+func (v vclock) get(i int) int {
+	if i < len(v) {
+		return v[i]
+	}
+	return 0
 }
 
-func newRaceState() *raceState { return &raceState{} }
+func join(a, b vclock) vclock {
+	n := len(a)
+	if len(b) > n {
+		n = len(b)
+	}
+	out := make(vclock, n)
+	for i := range out {
+		x, y := a.get(i), b.get(i)
+		if y > x {
+			x = y
+		}
+		out[i] = x
+	}
+	return out
+}
 
-func (r *raceState) newG(ex *Exec, g *G)            {}
-func (r *raceState) fork(parent, child *G)          {}
-func (r *raceState) acquire(g *G, obj any)          {}
-func (r *raceState) release(g *G, obj any)          {}
-func (r *raceState) releaseRead(g *G, obj any)      {}
-func (r *raceState) access(ex *Exec, l *Loc, w bool) {}
+type accessRec struct {
+	g     int
+	clock int
+	where string
+}
+
+type cellHist struct {
+	lastWrite *accessRec
+	reads     map[int]*accessRec
+}
+
+type raceState struct {
+	reports []string
+	seen    map[string]bool
+	gvc     map[int]vclock
+	ovc     map[any]vclock // release clocks of sync objects
+	rvc     map[any]vclock // read-release clocks of RW mutexes
+	cells   map[any]*cellHist
+}
+
+func newRaceState() *raceState {
+	return &raceState{seen: map[string]bool{}, gvc: map[int]vclock{}, ovc: map[any]vclock{}, rvc: map[any]vclock{}, cells: map[any]*cellHist{}}
+}
+
+func (r *raceState) clockOf(g *G) vclock {
+	v, ok := r.gvc[g.id]
+	if !ok {
+		v = make(vclock, g.id+1)
+		v[g.id] = 1
+		r.gvc[g.id] = v
+	}
+	if len(v) <= g.id {
+		nv := make(vclock, g.id+1)
+		copy(nv, v)
+		v = nv
+		r.gvc[g.id] = v
+	}
+	return v
+}
+
+func (r *raceState) tick(g *G) {
+	v := r.clockOf(g)
+	v[g.id]++
+}
+
+func (r *raceState) newG(ex *Exec, g *G) { r.clockOf(g) }
+
+func (r *raceState) fork(parent, child *G) {
+	pv := r.clockOf(parent)
+	cv := join(pv, r.clockOf(child))
+	if len(cv) <= child.id {
+		nv := make(vclock, child.id+1)
+		copy(nv, cv)
+		cv = nv
+	}
+	cv[child.id] = 1
+	r.gvc[child.id] = cv
+	r.tick(parent)
+}
+
+func (r *raceState) acquire(g *G, obj any) {
+	if g == nil {
+		return
+	}
+	r.gvc[g.id] = join(r.clockOf(g), r.ovc[obj])
+	if m, ok := obj.(*mutexState); ok && m.locked {
+		// a writer also waits for the readers that released before it
+		r.gvc[g.id] = join(r.gvc[g.id], r.rvc[obj])
+	}
+}
+
+func (r *raceState) release(g *G, obj any) {
+	if g == nil {
+		return
+	}
+	r.ovc[obj] = join(r.ovc[obj], r.clockOf(g))
+	r.tick(g)
+}
+
+func (r *raceState) releaseRead(g *G, obj any) {
+	if g == nil {
+		return
+	}
+	r.rvc[obj] = join(r.rvc[obj], r.clockOf(g))
+	r.tick(g)
+}
+
+func (r *raceState) hb(a *accessRec, g *G) bool {
+	if a.g == g.id {
+		return true
+	}
+	return a.clock <= r.clockOf(g).get(a.g)
+}
+
+func (r *raceState) report(ex *Exec, kind string, prev *accessRec, g *G) {
+	cur := ex.whereShort()
+	key := prev.where + "|" + cur
+	if prev.where > cur {
+		key = cur + "|" + prev.where
+	}
+	if r.seen[key] {
+		return
+	}
+	r.seen[key] = true
+	r.reports = append(r.reports, fmt.Sprintf("%s: g%d at %s races with g%d at %s", kind, g.id, cur, prev.g, prev.where))
+}
+
+func (ex *Exec) whereShort() string {
+	if ex.cur == nil {
+		return "?"
+	}
+	for i := len(ex.cur.frames) - 1; i >= 0; i-- {
+		fr := ex.cur.frames[i]
+		if fr.block != nil && fr.ip < len(fr.block.Instrs) {
+			p := ex.E.Prog.Fset.Position(fr.block.Instrs[fr.ip].Pos())
+			if p.IsValid() {
+				return fmt.Sprintf("%s (%s:%d)", fr.fn.String(), shortFile(p.Filename), p.Line)
+			}
+		}
+	}
+	if fr := ex.cur.top(); fr != nil {
+		return fr.fn.String()
+	}
+	return "?"
+}
+
+func shortFile(f string) string {
+	for i := len(f) - 1; i >= 0; i-- {
+		if f[i] == '/' {
+			return f[i+1:]
+		}
+	}
+	return f
+}
+
+// access records a read or write of location l by the current goroutine.
+func (r *raceState) access(ex *Exec, l *Loc, write bool) {
+	g := ex.cur
+	if g == nil || l == nil {
+		return
+	}
+	if l.Kids != nil {
+		for _, k := range l.Kids {
+			r.access(ex, k, write)
+		}
+		return
+	}
+	r.cell(ex, g, l, write)
+}
+
+// accessMap records a read or write of a whole map.
+func (r *raceState) accessMap(ex *Exec, m *MapObj, write bool) {
+	if ex.cur == nil || m == nil {
+		return
+	}
+	r.cell(ex, ex.cur, m, write)
+}
+
+func (r *raceState) cell(ex *Exec, g *G, key any, write bool) {
+	h := r.cells[key]
+	if h == nil {
+		h = &cellHist{reads: map[int]*accessRec{}}
+		r.cells[key] = h
+	}
+	me := &accessRec{g: g.id, clock: r.clockOf(g).get(g.id), where: ""}
+	if write {
+		if h.lastWrite != nil && !r.hb(h.lastWrite, g) {
+			r.report(ex, "write-write", h.lastWrite, g)
+		}
+		for _, rd := range h.reads {
+			if !r.hb(rd, g) {
+				r.report(ex, "read-write", rd, g)
+			}
+		}
+		me.where = ex.whereShort()
+		h.lastWrite = me
+		h.reads = map[int]*accessRec{}
+		return
+	}
+	if h.lastWrite != nil && !r.hb(h.lastWrite, g) {
+		r.report(ex, "write-read", h.lastWrite, g)
+	}
+	if prev, ok := h.reads[g.id]; !ok || prev.clock != me.clock {
+		me.where = ex.whereShort()
+		h.reads[g.id] = me
+	}
+}
